@@ -113,6 +113,8 @@ def rule_start(chk):
         dsts = [cfg.exit]
         if f.qualname == "log_call.logging_wrapper":
             dsts = [n for n in cfg.live if n.kind == "with_enter"]
+        if f.qualname == "log_call.logging_wrapper" and not dsts:
+            raise AnalysisError("log_call.logging_wrapper no longer runs the wrapped function inside `with <action>:` (where the start message must have been written is not modelled)")
         rng = cfg.count_range(cfg.entry, dsts, w, avoid_edges=quiet)
         chk.req(rng == (1, 1) and all(m == "once" for _, _, m in ev), "C03.start", "%s:one-start" % f.fq, chk.where(f),
                 good="exactly one start on every path", fail="start messages per created action range %s" % (rng,), sites=len(cfg.live))
